@@ -11,7 +11,7 @@ func init() {
 		},
 		Rule:      "a case = one generated design (routes profile: 1-3 routes per endpoint over all verbs, API/service base paths, parameters in every location, file servers, security schemes, errors, openapi meta). Non-trivial = the design has an endpoint with >= 2 routes, or a file server, or two verbs on one path. Distinct = SHA-256 of the design's feature vector and name.",
 		LevelText: "Generated-input search over designs: openapi.json/openapi3.json are loaded and validated with kin-openapi (OpenAPI 2 through openapi2conv, plus the verifier's own checks of path parameters and operationIds), JSON and YAML renderings are parsed and compared as trees, the set of (verb, path) pairs the generated Mount really passes to Muxer.Handle (recording muxer in the harness) is compared in both directions with the documented operations, and for every operation the parameters (name, location, required), the presence of a request body, the response codes and the security requirements are compared with the design model.",
-		LevelNote: "Trusts kin-openapi v0.128 as the OpenAPI validator (examples are not validated: the specification only says they SHOULD match), yaml.v3, the verifier's design model, and the recording muxer. Documents that the converter cannot translate for OpenAPI 2 validation are counted, not judged.",
+		LevelNote: "Trusts kin-openapi v0.128 as the OpenAPI validator (examples are not validated: the specification only says they SHOULD match), yaml.v3, the verifier's design model, and the recording muxer. Documents that the converter cannot translate for OpenAPI 2 validation are counted, not judged. Fixed designs next to the generated ones: parameter, verb, stream (101 for the success code, no request body) and MapParams (one object query parameter) matrices; services may declare several base paths.",
 		Technique: "property-based testing over generated designs: independent OpenAPI validator, JSON/YAML tree comparison, and differential comparison of the recorded mounts with the documented operations and the design model",
 		Assumptions: []string{
 			"a catch-all {*x} is documented as {x}; a file server on /dir/{*x} also answering on /dir/ is covered by the documented /dir/{x}",
